@@ -12,6 +12,7 @@ package main
 import (
 	"fmt"
 	"os"
+	"runtime/pprof"
 	"strings"
 
 	"verif/engine/ev"
@@ -53,6 +54,7 @@ type group struct {
 	MaxEnq   int
 	MaxAdv   int  // bound on advance(tick) steps per history
 	Half     bool // advance(tick/2) available (once per history)
+	Wait     bool // macro step: 5 x advance(tick) = 1.25 x BatchTimeout (once per history, not when idle)
 	Scripts  [][]answer
 	// Prefix: sharding granularity (jobs = histories of exactly this length, or shorter ones that are terminal)
 	Prefix int
@@ -84,6 +86,9 @@ func (g *group) enabled(h []step, idle bool) []step {
 	if !idle && count(h, "adv") < g.MaxAdv {
 		add(step{Op: "adv"})
 	}
+	if g.Wait && !idle && count(h, "wait") == 0 {
+		add(step{Op: "wait"})
+	}
 	if g.Half && count(h, "half") == 0 {
 		add(step{Op: "half"})
 	}
@@ -105,6 +110,10 @@ func execute(m int, compress bool, script []answer, h []step) *world {
 			w.advance(tick)
 		case "half":
 			w.advance(halfTick)
+		case "wait": // 1.25 x BatchTimeout passes, tick by tick
+			for i := 0; i < 5 && w.fail == nil; i++ {
+				w.advance(tick)
+			}
 		case "stop":
 			w.stop()
 			if w.fail == nil {
@@ -112,6 +121,7 @@ func execute(m int, compress bool, script []answer, h []step) *world {
 			}
 		}
 	}
+	w.idleAtEnd = w.fail == nil && w.idle()
 	w.teardown()
 	return w
 }
@@ -156,16 +166,24 @@ func (x *explorer) run(g *group, m int, si int, h []step) (w *world) {
 	return w
 }
 
+// explore walks the subtree below h depth first (explicit stack: the harness goroutine's own stack stays
+// shallow, which keeps the quiescence barrier cheap).
 func (x *explorer) explore(g *group, m, si int, h []step) {
-	if x.r.Expired(g.Name) {
-		return
-	}
-	w := x.run(g, m, si, h)
-	if w.fail != nil {
-		return
-	}
-	for _, s := range g.enabled(h, w.idle()) {
-		x.explore(g, m, si, append(h[:len(h):len(h)], s))
+	stack := [][]step{h}
+	for len(stack) > 0 {
+		if x.r.Expired(g.Name) {
+			return
+		}
+		h := stack[len(stack)-1]
+		stack = stack[:len(stack)-1]
+		w := x.run(g, m, si, h)
+		if w.fail != nil {
+			continue
+		}
+		en := g.enabled(h, w.idleAtEnd)
+		for i := len(en) - 1; i >= 0; i-- {
+			stack = append(stack, append(h[:len(h):len(h)], en[i]))
+		}
 	}
 }
 
@@ -201,6 +219,11 @@ func main() {
 	}
 	nshard := 16
 	r.Sharded(nshard, func(i, n int) {
+		if pf := os.Getenv("C26_PROF"); pf != "" {
+			f, _ := os.Create(pf)
+			pprof.StartCPUProfile(f)
+			defer pprof.StopCPUProfile()
+		}
 		calibrate()
 		selfCheck()
 		x := &explorer{r: r, viol: map[string]*found{}}
